@@ -27,6 +27,7 @@ from stix2 import v20, v21
 from stix2.base import _STIXBase
 
 from .. import common, schema, tlc
+from .. import objects as O
 
 VERSIONS = ["2.0", "2.1"]
 MOD = {"2.0": v20, "2.1": v21}
@@ -997,6 +998,54 @@ def systematic(chk, rec, quick, scratch):
     return index
 
 
+def factory_frame(chk):
+    """ObjectFactory / Environment defaults given as the caller's lists: create() with that property as a single value, a list, None or not at all, list_append on and off,
+    three calls in a row -- the caller's list is what it was, and every created object carries the defaults (plus, under list_append, exactly its own argument)"""
+    n = 0
+    for v in VERSIONS:
+        m = MOD[v]
+        mids = marking_ids(v)
+        for prop, default_items, singles in (
+                ("external_references", [{"source_name": "d", "description": "default"}, {"source_name": "e", "url": "http://e.example/"}],
+                 [{"source_name": "s1", "description": "single"}, m.ExternalReference(source_name="s2", description="object")]),
+                ("object_marking_refs", [mids[0], mids[1]], [mids[2], m.TLP_GREEN])):
+            for ndef in (1, 2):
+                for list_append in (True, False):
+                    for use_env in (False, True):
+                        mine = copy.deepcopy(default_items[:ndef])
+                        snap = copy.deepcopy(mine)
+                        try:
+                            f = stix2.ObjectFactory(created_by_ref="identity--11111111-1111-4111-8111-111111111111", list_append=list_append, **{prop: mine})
+                        except Exception:  # noqa
+                            continue
+                        maker = stix2.Environment(factory=f) if use_env else f
+                        calls = [("single", singles[0]), ("omitted", None), ("single_object", singles[1]), ("list", [singles[0]]), ("omitted", None)]
+                        for ci, (form, arg) in enumerate(calls):
+                            n += 1
+                            chk.case(["factory_defaults", v, prop, ndef, list_append, use_env, form])
+                            kw = {} if form == "omitted" else {prop: copy.deepcopy(arg) if not isinstance(arg, stix2.base._STIXBase) else arg}
+                            try:
+                                o = maker.create(m.Campaign, name="c", **kw)
+                            except Exception as e:  # noqa
+                                o = None
+                                exc = type(e).__name__
+                            sig = {"entry": "%s.create" % ("Environment" if use_env else "ObjectFactory"), "case": "%s default_len=%d list_append=%s argument=%s call=%d" % (prop, ndef, list_append, form, ci)}
+                            det = {"v": v, "prop": prop, "defaults": snap, "list_append": list_append, "argument_form": form, "call_index": ci}
+                            if O.plain(mine) != O.plain(snap):
+                                chk.violation(dict(sig, clause="C13:caller_list_given_as_factory_default_changed"), dict(det, now=O.plain(mine)), "S2f")
+                                mine[:] = copy.deepcopy(snap)
+                            if o is None:
+                                continue
+                            got = O.plain(o.get(prop, []))
+                            argl = [] if form == "omitted" else O.plain(arg if isinstance(arg, list) else [arg])
+                            if prop == "object_marking_refs":
+                                argl = [x["id"] if isinstance(x, dict) else x for x in argl]
+                            want = O.plain(snap) + argl if (list_append or form == "omitted") else argl
+                            if got != want:
+                                chk.violation(dict(sig, clause="C13:created_object_not_defaults_plus_own_argument"), dict(det, got=got, want=want), "S2f")
+    chk.stages["S2f_factory_defaults"] = {"create_calls": n}
+
+
 def run(chk):
     quick = chk.tier == "quick"
     rng = chk.rng
@@ -1014,6 +1063,7 @@ def run(chk):
     if not neg.property_violated:
         chk.machinery("Neg_Frame did not produce a counterexample")
 
+    factory_frame(chk)
     # ---- S2: TLC behaviours replayed through the public interface
     sim = tlc.run("MC_FrameGen", "Sim_Frame", workers=1, simulate="num=%d" % (60 if quick else 3000), depth=10, seed=chk.seed, scratch=chk.scratch)
     behs = []
